@@ -115,8 +115,8 @@ Record crec := mkC { k_pc : cpc; k_prev : status_t; k_rest : list ch; k_cur : op
 Inductive tpc := TCas | TLock | TSnap | TAlive | TCheck | TAdd | TComp | TCompRem | TEnd.
 Record trec := mkT {
   t_pc : tpc;
-  t_todo : list ch;       (* snapshot items not yet processed *)
-  t_added : list ch;      (* items with presenceAdded *)
+  t_todo : list (ch * gen);   (* snapshot items (channel, ctx.subGen) not yet processed *)
+  t_added : list (ch * gen);  (* items with presenceAdded *)
   t_rem : list ch         (* raced items still to be removed *)
 }.
 
@@ -498,10 +498,14 @@ Definition cls_step (s : st) (t : tid) (k : crec) (b : bool) : option st :=
   end.
 
 (* ---- presence tick (sequential variant) ---- *)
-Definition pres_items (m : amap ctx) : list ch :=
-  map fst (filter (fun p => c_sub (snd p) && o_pres (c_opts (snd p))) m).
-Definition raced_items (s : st) (l : list ch) : list ch :=
-  filter (fun c => match lookup c (chans s) with None => true | Some _ => false end) l.
+Definition pres_items (m : amap ctx) : list (ch * gen) :=
+  map (fun p => (fst p, c_gen (snd p))) (filter (fun p => c_sub (snd p) && o_pres (c_opts (snd p))) m).
+(* compensateRacedPresence: the channel is gone, or carries another subscription generation *)
+Definition raced_items (s : st) (l : list (ch * gen)) : list ch :=
+  map fst (filter (fun p => match lookup (fst p) (chans s) with
+                            | None => true
+                            | Some x => negb (c_gen x =? snd p)
+                            end) l).
 
 Definition tck_step (s : st) (t : tid) (k : trec) (b : bool) : option st :=
   let go k' s' := Some (thr_set t (TTck k') s') in
@@ -517,7 +521,7 @@ Definition tck_step (s : st) (t : tid) (k : trec) (b : bool) : option st :=
       | [] => go (mkT TComp [] (t_added k) []) s
       | c :: r =>
           if closing s then go (mkT TComp [] (t_added k) []) s
-          else match lookup c (chans s) with
+          else match lookup (fst c) (chans s) with
                | None => go (mkT TCheck r (t_added k) []) s
                | Some _ => go (mkT TAdd (c :: r) (t_added k) []) s
                end
@@ -525,7 +529,7 @@ Definition tck_step (s : st) (t : tid) (k : trec) (b : bool) : option st :=
   | TAdd =>
       match t_todo k with
       | c :: r => go (mkT TCheck r (c :: t_added k) [])
-                     (if b then set_pres (upd (pres s) c true) s else s)
+                     (if b then set_pres (upd (pres s) (fst c) true) s else s)
       | [] => go (mkT TComp [] (t_added k) []) s
       end
   | TComp => go (mkT TCompRem [] [] (raced_items s (t_added k))) s
